@@ -45,6 +45,7 @@ namespace tfel::math {
 }  // namespace tfel::math
 
 #include "TFEL/Material/LogarithmicStrainHandler.hxx"
+#include "TFEL/Material/FiniteStrainBehaviourTangentOperator.hxx"
 
 using namespace tfel::math;
 using tfel::material::LogarithmicStrainHandler;
@@ -367,6 +368,197 @@ struct Dim {
     const st2tost2<N, Sym> r = h.convertToCauchyStressTruesdellRateTangentModuli(Ks, Ts);
     verif::outputs2("Kr", r, S, S);
   }
+
+  // ------------------------------------------------------------------------------------------------
+  // "X" units (mutation audit 2026-09-22): functions of the handler that have no theorem and no closed
+  // reference of their own. Each unit emits pairs (got<k>, exp<k>): got = what the function under test
+  // returns, exp = the same quantity composed HERE from handler functions covered by the other units
+  // (tensor overloads, material moduli, convertToCauchyStress) and from convert<> (property C23), with the
+  // storage conventions (Abaqus/`tab` storage, column major tangent) written generically. checks/c24ref.py
+  // evaluates both exactly at random inputs and requires got<k> = exp<k>. They are not emitted to Lean.
+  static void pair(int& k, const Sym& got, const Sym& exp) {
+    verif::output("got" + std::to_string(k), got);
+    verif::output("exp" + std::to_string(k), exp);
+    ++k;
+  }
+  //! scaling between TFEL (Mandel) and tab/Abaqus storage of component i
+  static Sym fac(const int i) { return i < 3 ? Sym(1) : Cste<Sym>::sqrt2; }
+  static std::string xname(const Setting s, const char* const what) {
+    return "X" + std::to_string(N) + (s == LAG ? "_L_" : "_E_") + what;
+  }
+  static void x_stress_pointers(const Setting s) {
+    Unit u(xname(s, "stress_ptr"));
+    const H h = symbolic_handler(s, GENERIC);
+    stensor<N, Sym> Xs;
+    c24::fillg(Xs, "T", S);
+    int k = 0;
+    auto to_tab = [](Sym* const t, const stensor<N, Sym>& x) {
+      for (int i = 0; i != S; ++i) t[i] = x[i] / fac(i);
+    };
+    auto cmp = [&k](const Sym* const t, const stensor<N, Sym>& x) {
+      for (int i = 0; i != S; ++i) pair(k, t[i], x[i] / fac(i));
+    };
+    Sym t[6];
+    c24::inv_oracle().on = true;
+    if (s == LAG) {
+      to_tab(t, Xs);
+      h.convertToSecondPiolaKirchhoffStress(t);
+      cmp(t, h.convertToSecondPiolaKirchhoffStress(Xs));
+      to_tab(t, Xs);
+      h.convertFromSecondPiolaKirchhoffStress(t);
+      cmp(t, h.convertFromSecondPiolaKirchhoffStress(Xs));
+      // Lagrangian convertFromCauchyStress = pull back to S, then the inverse of T -> S
+      const stensor<N, Sym> Sb = convertCauchyStressToSecondPiolaKirchhoffStress(Xs, h.F);
+      const stensor<N, Sym> Tb = h.convertFromSecondPiolaKirchhoffStress(Sb);
+      const stensor<N, Sym> Tg = h.convertFromCauchyStress(Xs);
+      for (int i = 0; i != S; ++i) pair(k, Tg[i], Tb[i]);
+    }
+    to_tab(t, Xs);
+    h.convertToCauchyStress(t);
+    cmp(t, h.convertToCauchyStress(Xs));
+    to_tab(t, Xs);
+    h.convertFromCauchyStress(t);
+    cmp(t, h.convertFromCauchyStress(Xs));
+    c24::inv_oracle().on = false;
+  }
+  static void x_moduli(const Setting s) {
+    using FSTOBase = tfel::material::FiniteStrainBehaviourTangentOperatorBase;
+    using tfel::material::convert;
+    Unit u(xname(s, "moduli"));
+    const H h = symbolic_handler(s, GENERIC);
+    stensor<N, Sym> Ts;
+    c24::fillg(Ts, "T", S);
+    st2tost2<N, Sym> Ks;
+    c24::fillg2(Ks, "K", S, S);
+    int k = 0;
+    auto cmp = [&k](const st2tost2<N, Sym>& g, const st2tost2<N, Sym>& e) {
+      for (int i = 0; i != S; ++i)
+        for (int j = 0; j != S; ++j) pair(k, g(i, j), e(i, j));
+    };
+    const auto F0 = tensor<N, Sym>::Id();
+    const Sym J = det(h.F);
+    const stensor<N, Sym> sig = h.convertToCauchyStress(Ts);
+    st2tost2<N, Sym> e_sp, e_ab;
+    if (s == LAG) {
+      const st2tost2<N, Sym> Cse = h.convertToMaterialTangentModuli(Ks, Ts);
+      e_sp = convert<FSTOBase::SPATIAL_MODULI, FSTOBase::DS_DEGL>(Cse, F0, h.F, sig);
+      e_ab = convert<FSTOBase::ABAQUS, FSTOBase::DS_DEGL>(Cse, F0, h.F, sig);
+      e_ab /= J;
+      const st2tost2<N, Sym> g_sp = h.convertToSpatialTangentModuli(Ks, Ts);
+      cmp(g_sp, e_sp);
+    } else {
+      e_sp = h.convertToSpatialTangentModuli(Ks, Ts);
+      e_ab = convert<FSTOBase::ABAQUS, FSTOBase::SPATIAL_MODULI>(e_sp, F0, h.F, sig);
+    }
+    st2tost2<N, Sym> e_tr = e_sp;
+    e_tr /= J;
+    if (s == LAG) {
+      const st2tost2<N, Sym> g_tr = h.convertToCauchyStressTruesdellRateTangentModuli(Ks, Ts);
+      cmp(g_tr, e_tr);
+    }
+    const st2tost2<N, Sym> g_ab = h.convertToAbaqusTangentModuli(Ks, Ts);
+    cmp(g_ab, e_ab);
+    // pointer variants: Abaqus storage (column major, engineering shear scaling) in and out
+    Sym t[6];
+    for (int i = 0; i != S; ++i) t[i] = Ts[i] / fac(i);
+    for (int v = 0; v != 2; ++v) {
+      Sym kk[36];
+      for (int i = 0; i != S; ++i)
+        for (int j = 0; j != S; ++j) kk[i + S * j] = Ks(i, j) / (fac(i) * fac(j));
+      if (v == 0) {
+        h.convertToCauchyStressTruesdellRateTangentModuli(kk, t);
+      } else {
+        h.convertToAbaqusTangentModuli(kk, t);
+      }
+      const st2tost2<N, Sym>& e = (v == 0) ? e_tr : e_ab;
+      for (int i = 0; i != S; ++i)
+        for (int j = 0; j != S; ++j) pair(k, kk[i + S * j], e(i, j) / (fac(i) * fac(j)));
+    }
+  }
+  static void x_misc(const Setting s) {
+    {
+      Unit u(xname(s, "axial"));
+      H h = symbolic_handler(s, GENERIC);
+      const auto F = h.getDeformationGradient();
+      const Sym Fzz = c24::in("Fzz", 1.37);
+      h.updateAxialDeformationGradient(Fzz);
+      const auto& F2 = h.getDeformationGradient();
+      int k = 0;
+      // 2D: the axial component is F[2]; (3D has no such method)
+      for (int i = 0; i != T; ++i) pair(k, F2[i], i == 2 ? Fzz : F[i]);
+    }
+    if (s == EUL) {
+      Unit u(xname(s, "throw"));
+      const H h = symbolic_handler(s, GENERIC);
+      stensor<N, Sym> Ts;
+      c24::fillg(Ts, "T", S);
+      st2tost2<N, Sym> Ks;
+      c24::fillg2(Ks, "K", S, S);
+      int thrown = 0;
+      c24::inv_oracle().on = true;
+      try { h.convertToSecondPiolaKirchhoffStress(Ts); } catch (std::exception&) { thrown += 1; }
+      try { h.convertFromSecondPiolaKirchhoffStress(Ts); } catch (std::exception&) { thrown += 2; }
+      try { h.convertToMaterialTangentModuli(Ks, Ts); } catch (std::exception&) { thrown += 4; }
+      Sym t[6];
+      for (int i = 0; i != S; ++i) t[i] = Ts[i];
+      try { h.convertToSecondPiolaKirchhoffStress(t); } catch (std::exception&) { thrown += 8; }
+      try { h.convertFromSecondPiolaKirchhoffStress(t); } catch (std::exception&) { thrown += 16; }
+      c24::inv_oracle().on = false;
+      int k = 0;
+      // the Lagrangian-only conversions must refuse an Eulerian handler (its p is the push-forward)
+      pair(k, Sym(thrown), Sym(31));
+    }
+  }
+  static void x_plane_stress(const Setting s) {
+    Unit u(xname(s, "builder_ps"));
+    set_oracle(GENERIC);
+    const auto F = inputF();
+    const H h1(s, F, true);
+    const H h0(s, F, false);
+    int k = 0;
+    pair(k, h0.e[0], h1.e[0]);
+    pair(k, h0.e[1], h1.e[1]);
+    pair(k, h0.e[2], Sym(0));
+    for (int i = 0; i != 3; ++i) pair(k, h0.vp[i], h1.vp[i]);
+    for (int i = 0; i != S; ++i)
+      for (int j = 0; j != S; ++j) pair(k, h0.p(i, j), h1.p(i, j));
+  }
+  //! Eulerian spatial moduli on the coalescing-eigenvalue branches (reference: checks/c24ref.py ref_tangent)
+  static void x_spatial_eq(const Pattern& pt) {
+    Unit u(xname(EUL, "spatial") + pt.tag);
+    const H h = symbolic_handler(EUL, pt);
+    stensor<N, Sym> Ts;
+    c24::fillg(Ts, "T", S);
+    st2tost2<N, Sym> Ks;
+    c24::fillg2(Ks, "K", S, S);
+    const st2tost2<N, Sym> r = h.convertToSpatialTangentModuli(Ks, Ts);
+    verif::outputs2("Kr", r, S, S);
+  }
+  static void extra() {
+    for (const auto s : {LAG, EUL}) {
+      x_stress_pointers(s);
+      x_moduli(s);
+      if constexpr (N == 2) {
+        x_misc(s);
+        x_plane_stress(s);
+      }
+    }
+    if constexpr (N == 3) {
+      {
+        Unit u(xname(EUL, "throw"));
+        const H h = symbolic_handler(EUL, GENERIC);
+        stensor<N, Sym> Ts;
+        c24::fillg(Ts, "T", S);
+        int thrown = 0;
+        try { h.convertToSecondPiolaKirchhoffStress(Ts); } catch (std::exception&) { thrown += 1; }
+        int k = 0;
+        pair(k, Sym(thrown), Sym(1));
+      }
+      for (const auto* p : {&EQ01, &EQ02, &EQ12, &EQALL}) x_spatial_eq(*p);
+    } else {
+      x_spatial_eq(EQ01);
+    }
+  }
 };
 
 static void trace_1d() {
@@ -418,6 +610,52 @@ static void trace_1d() {
       const st2tost2<1u, Sym> Kt = h.convertToCauchyStressTruesdellRateTangentModuli(Ks, Ts);
       verif::outputs2("Kt", Kt, 3, 3);
     }
+    {
+      // pointer overloads and updateAxialDeformationGradient (see the "X" units of Dim<N>)
+      Unit u(std::string("X1_") + (s == LAG ? "L" : "E") + "_ptr");
+      H h = mk(s);
+      stensor<1u, Sym> Ts;
+      c24::fillg(Ts, "T", 3);
+      st2tost2<1u, Sym> Ks;
+      c24::fillg2(Ks, "K", 3, 3);
+      int k = 0;
+      auto pair = [&k](const Sym& got, const Sym& exp) {
+        verif::output("got" + std::to_string(k), got);
+        verif::output("exp" + std::to_string(k), exp);
+        ++k;
+      };
+      auto cmp = [&pair](const Sym* const t, const stensor<1u, Sym>& x) {
+        for (int i = 0; i != 3; ++i) pair(t[i], x[i]);
+      };
+      Sym t[3];
+      auto load = [&t, &Ts] {
+        for (int i = 0; i != 3; ++i) t[i] = Ts[i];
+      };
+      load();
+      h.convertFromSecondPiolaKirchhoffStress(t);
+      cmp(t, h.convertFromSecondPiolaKirchhoffStress(Ts));
+      load();
+      h.convertToCauchyStress(t);
+      cmp(t, h.convertToCauchyStress(Ts));
+      load();
+      h.convertFromCauchyStress(t);
+      cmp(t, h.convertFromCauchyStress(Ts));
+      // Truesdell moduli, pointer variant: column major storage in and out
+      Sym kk[9];
+      for (int i = 0; i != 3; ++i)
+        for (int j = 0; j != 3; ++j) kk[i + 3 * j] = Ks(i, j);
+      load();
+      h.convertToCauchyStressTruesdellRateTangentModuli(kk, t);
+      const st2tost2<1u, Sym> Kt = h.convertToCauchyStressTruesdellRateTangentModuli(Ks, Ts);
+      for (int i = 0; i != 3; ++i)
+        for (int j = 0; j != 3; ++j) pair(kk[i + 3 * j], Kt(i, j));
+      // axial deformation gradient: component 1 (zz) in 1D
+      const auto F = h.getDeformationGradient();
+      const Sym Fzz = c24::in("Fzz", 1.37);
+      h.updateAxialDeformationGradient(Fzz);
+      const auto& F2 = h.getDeformationGradient();
+      for (int i = 0; i != 3; ++i) pair(F2[i], i == 1 ? Fzz : F[i]);
+    }
   }
 }
 
@@ -441,6 +679,7 @@ static void trace_dim() {
       D::tangent(LAG, *p);
     }
   }
+  D::extra();
 }
 
 int main() {
